@@ -30,13 +30,24 @@ def run_battery(prop, seed, timeout=400):
             f.write(toml)
         if os.path.exists(os.path.join(repo, 'Cargo.lock')):
             shutil.copy(os.path.join(repo, 'Cargo.lock'), os.path.join(crate, 'Cargo.lock'))
-        env = dict(os.environ, CARGO_NET_OFFLINE='true', CARGO_INCREMENTAL='0', CARGO_TARGET_DIR=os.path.join(VERIF, '.cache', 'replay-target'))
-        b = subprocess.run(['cargo', 'build', '--offline'], cwd=crate, env=env, stdout=subprocess.PIPE, stderr=subprocess.PIPE, text=True, timeout=timeout)
-        if b.returncode != 0:
-            res = ([], 'replay driver does not build against this tree: ' + b.stderr[-600:])
-            _cache[key] = res
-            return res
-        exe = os.path.join(env['CARGO_TARGET_DIR'], 'debug', 'replay')
+        tdir = os.path.join(VERIF, '.cache', 'replay-target')
+        env = dict(os.environ, CARGO_NET_OFFLINE='true', CARGO_INCREMENTAL='0', CARGO_TARGET_DIR=tdir)
+        os.makedirs(os.path.join(VERIF, '.cache'), exist_ok=True)
+        import fcntl
+        lock = open(os.path.join(VERIF, '.cache', 'replay.lock'), 'w')
+        fcntl.flock(lock, fcntl.LOCK_EX)       # one build at a time: the shared target directory holds one `replay` executable
+        try:
+            _prune_target(tdir)
+            b = subprocess.run(['cargo', 'build', '--offline'], cwd=crate, env=env, stdout=subprocess.PIPE, stderr=subprocess.PIPE, text=True, timeout=timeout)
+            if b.returncode != 0:
+                res = ([], 'replay driver does not build against this tree: ' + b.stderr[-600:])
+                _cache[key] = res
+                return res
+            exe = os.path.join(d, 'replay-exe')
+            shutil.copy(os.path.join(tdir, 'debug', 'replay'), exe)     # private copy: a later build for another tree cannot replace it under us
+        finally:
+            fcntl.flock(lock, fcntl.LOCK_UN)
+            lock.close()
         try:
             r = subprocess.run([exe, prop, str(seed)], stdout=subprocess.PIPE, stderr=subprocess.PIPE, text=True, timeout=timeout)
         except subprocess.TimeoutExpired:
@@ -66,6 +77,33 @@ def run_battery(prop, seed, timeout=400):
         return res
     finally:
         shutil.rmtree(d, ignore_errors=True)
+
+
+def _prune_target(tdir, limit=2 * 1024 ** 3):
+    """every battery build compiles the crate under test from a fresh scratch path, so its artifacts pile up in the shared target
+    directory; when it exceeds `limit` bytes the artifacts of `compute` and of the driver are dropped (third-party dependencies stay)"""
+    deb = os.path.join(tdir, 'debug')
+    if not os.path.isdir(deb):
+        return
+    total = 0
+    for root, _, files in os.walk(deb):
+        for f in files:
+            try:
+                total += os.path.getsize(os.path.join(root, f))
+            except OSError:
+                pass
+    if total < limit:
+        return
+    import glob
+    for pat in ('deps/*compute*', 'deps/replay-*', 'deps/libreplay*', '.fingerprint/compute-*', '.fingerprint/replay-*', 'incremental'):
+        for x in glob.glob(os.path.join(deb, pat)):
+            if os.path.isdir(x):
+                shutil.rmtree(x, ignore_errors=True)
+            else:
+                try:
+                    os.remove(x)
+                except OSError:
+                    pass
 
 
 def _fn_keys(path):
